@@ -442,6 +442,14 @@ def _main(chk: Check, impl: Impl, replay: dict | None) -> int:
         return 0
 
     chk.prove()
+    if chk.thorough and not chk.broken:
+        # independent re-check of the compiled proofs (and of "no axioms") by coqchk
+        from framework import COQ, sh
+        rc, out = sh(["coqchk", "-o", "-silent", "-Q", str(COQ), "PG", "PG.Properties.C20"], timeout=1500)
+        ok = rc == 0 and "* Axioms: <none>" in out
+        chk.cov["coqchk"] = "ok: Axioms <none>" if ok else "FAILED"
+        if not ok:
+            chk.broken.append({"kind": "coqchk", "name": "PG.Properties.C20", "detail": out[-1500:]})
     rng = chk.rng
     reserved = sorted(impl.NS.RESERVED_NAMES)
     corpus = load_corpus("C20")
